@@ -394,6 +394,22 @@ def dumpRecordsIn (env : Env) (records : List RecSpec) (results : List ModDict) 
         let w := emitWith (fileCodec env) h d (docRecords recs)
         ⟨c.trace ++ w.1, w.2.2, w.2.1⟩
 
+/-- the target path names an existing directory: `open(path, "w")` raises `IsADirectoryError` -/
+def targetIsDir (h : Handle) (d : Dir) : Bool :=
+  match h with
+  | .path n => d.any fun e => e.name == n && e.isDir
+  | _ => false
+
+/-- `write_to_file` when the target may be a directory: the conversion runs as always; only then is the
+    path opened, and opening a directory fails without changing anything -/
+def writeToFileAt (env : Env) (r : Results) (h : Handle) (d : Dir) : Out :=
+  let o := writeToFileIn env r h d
+  if targetIsDir h d && o.err.isNone then
+    match h with
+    | .path n => ⟨(convertRecords 0 r.records r.results).trace ++ [.openW n], some "IsADirectoryError", d⟩
+    | _ => o
+  else o
+
 /-! ### the output directory -/
 
 /-- what is found at the output directory's path -/
